@@ -136,13 +136,36 @@ func Authenticate(ab *authboss.Authboss, w http.ResponseWriter, req **http.Reque
 		return errors.Wrap(err, "failed to save remember me token")
 	}
 
-	*req = (*req).WithContext(context.WithValue((*req).Context(), authboss.CTXKeyPID, pid))
+	// The session writes below only reach the client with the response. The
+	// rest of this request must already see the user as half-authed, else the
+	// request that consumes the cookie passes RequireFullAuth middlewares.
+	ctx := context.WithValue((*req).Context(), authboss.CTXKeyPID, pid)
+	state, _ := ctx.Value(authboss.CTXKeySessionState).(authboss.ClientState)
+	ctx = context.WithValue(ctx, authboss.CTXKeySessionState, halfAuthState{cs: state})
+	*req = (*req).WithContext(ctx)
 	authboss.PutSession(w, authboss.SessionKey, pid)
 	authboss.PutSession(w, authboss.SessionHalfAuthKey, "true")
 	authboss.DelCookie(w, authboss.CookieRemember)
 	authboss.PutCookie(w, authboss.CookieRemember, token)
 
 	return nil
+}
+
+// halfAuthState is the session state of the request that was authenticated by
+// a remember me cookie: what the client sent plus the half-auth mark.
+type halfAuthState struct {
+	cs authboss.ClientState
+}
+
+func (h halfAuthState) Get(key string) (string, bool) {
+	if key == authboss.SessionHalfAuthKey {
+		return "true", true
+	}
+	if h.cs == nil {
+		return "", false
+	}
+
+	return h.cs.Get(key)
 }
 
 // AfterPasswordReset is called after the password has been reset, since
